@@ -20,6 +20,99 @@ struct NoWake;
 impl Wake for NoWake { fn wake(self: Arc<Self>) {} }
 
 fn filter(tag: &str) -> bool { tag.starts_with("mm.") }
+/// `sub=wake`: the poll / park / wake protocol of the log channel's listeners as well
+fn filter_wake(tag: &str) -> bool {
+    tag.starts_with("mm.") || matches!(tag, "ms.poll" | "sm.flag" | "sm.reg.cmp" | "sm.reg.lock" | "sm.reg.store" | "sm.reg.selfwake" | "sm.wake" | "sm.wake.lock"
+        | "sm.wake.retry" | "sm.running" | "sync.spin")
+}
+
+struct FlagWaker(std::sync::atomic::AtomicBool);
+impl Wake for FlagWaker {
+    fn wake(self: Arc<Self>) { self.0.store(true, SeqCst) }
+    fn wake_by_ref(self: &Arc<Self>) { self.0.store(true, SeqCst) }
+}
+
+/// C04 for the log channel: listeners (new events only) are polled by tasks that park on `Pending` and are polled again only
+/// when their waker fired; 1-3 producers then publish.  Oracle: when every producer has returned and no task is notified,
+/// no parked listener may have an unread event.
+fn run_wake(seed: u64, replay: Option<Vec<u8>>, path: &str) -> (sched::Outcome, Vec<(String, String)>, String) {
+    let ch: Arc<Ch> = Ch::verif_from_file(path);
+    let mut rng = Rng::new(seed ^ 0x77AA);
+    let np = rng.range(1, 3) as usize;
+    let nl = rng.range(1, 2) as usize;
+    let cfgkey = format!("wake/p{np}l{nl}");
+    struct Task { stream: Option<std::mem::ManuallyDrop<St>>, flag: Arc<FlagWaker>, parked: bool, got: Vec<u64> }
+    let tasks: Arc<Mutex<Vec<Task>>> = Arc::new(Mutex::new((0..nl).map(|_| { let (s, _id) = ch.create_stream_for_new_events();
+        Task { stream: Some(std::mem::ManuallyDrop::new(s)), flag: Arc::new(FlagWaker(std::sync::atomic::AtomicBool::new(true))), parked: false, got: vec![] } }).collect()));
+    let sent: Arc<Mutex<Vec<u64>>> = Arc::new(Mutex::new(vec![]));
+    let done = Arc::new(AtomicUsize::new(0));
+    let mut bodies: Vec<Body> = vec![];
+    for p in 0..np {
+        let n = rng.range(1, 3) as usize;
+        let (done, ch, sent) = (done.clone(), ch.clone(), sent.clone());
+        let with = rng.chance(1, 2);
+        bodies.push(Box::new(move |ctx| {
+            for i in 0..n {
+                let v = (p as u64 + 1) * 1000 + i as u64;
+                ctx.call(p, &format!("send {v}"));
+                let ok = if with && i % 2 == 1 { ch.send_with(|slot| *slot = v).is_ok() } else { ch.send(v).is_ok() };
+                ctx.ret("unit");
+                assert!(ok);
+                sent.lock().unwrap().push(v);
+            }
+            done.fetch_add(1, SeqCst);
+        }));
+    }
+    // one executor thread per listener task: polls while notified, parks otherwise (as a tokio task would)
+    let poll_task = |ctx: &sched::Ctx, tasks: &Mutex<Vec<Task>>, li: usize, lt: usize| -> bool {
+        let (mut s, flag) = { let mut g = tasks.lock().unwrap(); (g[li].stream.take().unwrap(), g[li].flag.clone()) };
+        flag.0.store(false, SeqCst);
+        ctx.call(lt, &format!("poll {li}"));
+        let w: Waker = flag.clone().into();
+        let mut cx = Context::from_waker(&w);
+        let r = Pin::new(&mut *s).poll_next(&mut cx);
+        let mut g = tasks.lock().unwrap();
+        g[li].stream = Some(s);
+        match r {
+            Poll::Ready(Some(v)) => { g[li].got.push(*v); g[li].parked = false; g[li].flag.0.store(true, SeqCst); drop(g); ctx.ret(&format!("item {}", *v)); true }
+            _ => { g[li].parked = true; drop(g); ctx.ret("item none"); false }
+        }
+    };
+    for li in 0..nl {
+        let (tasks, done) = (tasks.clone(), done.clone());
+        bodies.push(Box::new(move |ctx| {
+            let lt = 10 + li;
+            loop {
+                let (t2, d2) = (tasks.clone(), done.clone());
+                // runnable iff notified; gives up when all producers are done and it is not notified (quiescence)
+                ctx.block_until(Box::new(move || t2.lock().unwrap()[li].flag.0.load(SeqCst) || d2.load(SeqCst) >= np));
+                if !tasks.lock().unwrap()[li].flag.0.load(SeqCst) { break }
+                poll_task(ctx, &tasks, li, lt);
+            }
+            done.fetch_add(1, SeqCst);
+        }));
+    }
+    let mut cfg = Config::new(seed, filter_wake);
+    cfg.replay = replay;
+    let o = sched::run(cfg, bodies);
+    let mut viol = vec![];
+    if o.verdict != Verdict::Completed { viol.push(("no_progress".into(), format!("{:?}", o.verdict))); }
+    for (i, p) in o.panics.iter().enumerate() { if let Some(m) = p { viol.push(("panic".into(), format!("thread {i} panicked: {}", &m[..m.len().min(200)]))); } }
+    if o.verdict == Verdict::Completed {
+        let total = sent.lock().unwrap().len();
+        let mut g = tasks.lock().unwrap();
+        for (li, t) in g.iter_mut().enumerate() {
+            // the quiescent state: every producer returned, this task is parked and not notified
+            if t.parked && !t.flag.0.load(SeqCst) && t.got.len() < total {
+                viol.push(("lost_wakeup".into(), format!("log channel: every producer has returned ({total} events accepted), listener #{li} yielded {} of them and is parked with its waker un-notified: {} event(s) stay pending until something else happens", t.got.len(), total - t.got.len())));
+            }
+        }
+        for t in g.iter_mut() { if let Some(mut s) = t.stream.take() { unsafe { std::mem::ManuallyDrop::drop(&mut s); } } }
+        drop(g);
+        drop(ch);
+    } else { std::mem::forget(ch); }
+    (o, viol, cfgkey)
+}
 
 #[derive(Clone, Copy, PartialEq, Debug)]
 enum Kind { New, Old, NewOfSplit, Joined }
@@ -190,12 +283,15 @@ fn main() {
     let single = a.kv.get("choices").map(|c| parse_choices(c));
     for i in 0..runs {
         let seed = if a.kv.contains_key("seedx") { a.num("seedx", 0) } else { seed0.wrapping_mul(1_000_003).wrapping_add(i) };
-        let (o, viol, cfgkey) = run_one(seed, single.clone(), &path);
-        let nontrivial = o.trace.iter().any(|l| l.contains("subsplit") || l.contains("subnew")) && o.trace.iter().filter(|l| l.contains(" mm.p.publish ")).count() > 1;
+        mark_run(seed);
+        let wake = a.get("sub", "") == "wake";
+        let (o, viol, cfgkey) = if wake { run_wake(seed, single.clone(), &path) } else { run_one(seed, single.clone(), &path) };
+        let nontrivial = if wake { o.trace.iter().any(|l| l.contains(" sm.wake ")) && o.trace.iter().filter(|l| l.starts_with("ret 1") && l.ends_with("item none")).count() > 0 }
+                         else { o.trace.iter().any(|l| l.contains("subsplit") || l.contains("subnew")) && o.trace.iter().filter(|l| l.contains(" mm.p.publish ")).count() > 1 };
         rep.add_run(&o.trace, nontrivial, &cfgkey, &format!("{:?}", o.verdict));
         out.write_run(&format!("cfg model=mmaplog seed={seed} run={i}"), &o.trace);
         for (k, d) in viol {
-            let header = vec![format!("cmd mmaplog runs=1 seedx={seed} choices={}", choices_str(&o.choices)), format!("violation {k}: {d}")];
+            let header = vec![format!("cmd mmaplog{} runs=1 seedx={seed} choices={}", if wake { " sub=wake" } else { "" }, choices_str(&o.choices)), format!("violation {k}: {d}")];
             let p = write_replay(&replay_dir, &format!("{pid}-mmaplog-seed{seed}-{k}"), &header, &o.trace);
             rep.violations.push(Violation { run: i, seed, kind: k, detail: d, replay: p });
         }
